@@ -103,20 +103,53 @@ class CZTargetGateset(compilation_target_gateset.TwoQubitCompilationTargetGatese
             f'atol={self.atol}, '
             f'allow_partial_czs={self.allow_partial_czs}, '
             f'additional_gates=[{self._additional_gates_repr_str}]'
+            f'{self._moment_options_repr_str}'
             f')'
         )
 
+    @property
+    def _moment_options_repr_str(self) -> str:
+        # Printed (and written to JSON) only when they differ from the defaults.
+        text = ''
+        if not self._preserve_moment_structure:
+            text += ', preserve_moment_structure=False'
+        if self._reorder_operations:
+            text += ', reorder_operations=True'
+        return text
+
     def _value_equality_values_(self) -> Any:
-        return self.atol, self.allow_partial_czs, frozenset(self.additional_gates)
+        return (
+            self.atol,
+            self.allow_partial_czs,
+            frozenset(self.additional_gates),
+            self._preserve_moment_structure,
+            self._reorder_operations,
+        )
 
     def _json_dict_(self) -> dict[str, Any]:
         d: dict[str, Any] = {'atol': self.atol, 'allow_partial_czs': self.allow_partial_czs}
         if self.additional_gates:
             d['additional_gates'] = list(self.additional_gates)
+        if not self._preserve_moment_structure:
+            d['preserve_moment_structure'] = False
+        if self._reorder_operations:
+            d['reorder_operations'] = True
         return d
 
     @classmethod
-    def _from_json_dict_(cls, atol, allow_partial_czs, additional_gates=(), **kwargs):
+    def _from_json_dict_(
+        cls,
+        atol,
+        allow_partial_czs,
+        additional_gates=(),
+        preserve_moment_structure=True,
+        reorder_operations=False,
+        **kwargs,
+    ):
         return cls(
-            atol=atol, allow_partial_czs=allow_partial_czs, additional_gates=additional_gates
+            atol=atol,
+            allow_partial_czs=allow_partial_czs,
+            additional_gates=additional_gates,
+            preserve_moment_structure=preserve_moment_structure,
+            reorder_operations=reorder_operations,
         )
